@@ -142,7 +142,8 @@ PROPS["C05"] = dict(
         "c05_counterexample_gc_sentinel": "the pre-fix gc (0 as 'nothing yet' marker) on table {5,0,9} in that order yields watermark 8 > live 5 (F19, fixed)",
     },
     engines=[dict(bin="tracker", cases_quick=2000, cases_thorough=40000, profiles=["release"], profiles_thorough=["release", "dev"]),
-             dict(bin="conc", cases_quick=240, cases_thorough=6000, profiles=["release"])],
+             dict(bin="conc", cases_quick=240, cases_thorough=6000, profiles=["release"]),
+             dict(bin="tx", args=["--mode", "c08"], cases_quick=600, cases_thorough=10000, profiles=["release"])],
     rule="conc: schedule-controlled threads (see C06) with tracker GC runs and GC-lock block probes (a gc started while an open() is parked between its two loads must wait), "
          "watermark compared with the model after every step, oracle 'watermark <= every live snapshot instant'. tracker: views are snapshots, clones of snapshots and iterators created from snapshots, dropped in any order, with writes / removes, memtable rotation + flush + queued compactions, major compactions in between; after every step every live view is read (point read, sometimes a full scan; iterators are advanced) and must show exactly the content it had at creation and never panic; open_snapshots() must equal the number of live views. case = random sequence of snapshot open (half the cases start with a snapshot of the fresh database, instant 0) / drop / writes "
          "(publish) / keyspace creation / tracker gc / pullup on a real database; after every step open_snapshots(), the GC watermark and "
@@ -484,8 +485,11 @@ PROPS["C06"] = dict(
         "c06_view_below_inflight": "in every reachable state every view's instant is at most the seqno of the write holding the journal lock and at most the seqno generator",
         "c06_unrepaired_counterexample": "with open() handing out the raw counter (code before the fix of finding F6) a 13-step schedule violates atomic visibility (closed term, by decide)",
     },
-    engines=[dict(bin="conc", cases_quick=480, cases_thorough=12000, profiles=["release"], profiles_thorough=["release", "dev"])],
-    rule="case = 1-3 writer threads (inserts, removes, multi-item multi-keyspace batches, latest reads, memtable rotations) + 1-2 reader threads (snapshot; 2-4 reads through it; again) as real "
+    engines=[dict(bin="conc", cases_quick=480, cases_thorough=12000, profiles=["release"], profiles_thorough=["release", "dev"]),
+             dict(bin="swtx", args=[], cases_quick=160, cases_thorough=3000, profiles=["release"])],
+    rule="swtx (committed transactions): as C08; half of the commits are held at write.unlocked, i.e. right after the transaction's journal batch left its critical "
+         "section, while read-only snapshots of other threads read keys of all keyspaces it wrote; a second batch inside one commit is a violation. "
+         "conc: case = 1-3 writer threads (inserts, removes, multi-item multi-keyspace batches, latest reads, memtable rotations) + 1-2 reader threads (snapshot; 2-4 reads through it; again) as real "
          "threads parked at pause points (journal lock taken, write floor set, seqno drawn, after each item, published, unlocked; counter loaded inside open()), released one step at a time "
          "by a controller following a random schedule, with version registrations (compactions of a side keyspace) in between and block probes (a thread released into a held journal lock "
          "must not get past it); after every step counter / visible seqno / write floor / snapshot instants / read results are compared with the Lean model run on the same schedule; "
